@@ -345,6 +345,27 @@ func runC16(r *Runner, g *Gen, tier string) string {
 			}
 		}
 	}
+	// trees nested 30-70 deep, rendered through the codec's Descriptor
+	for _, depth := range []int{30, 31, 32, 33, 34, 40, 70} {
+		for shape := 0; shape < 2; shape++ {
+			v := L(A("s"), A(hx([]byte("deep"))))
+			for d := 0; d < depth; d++ {
+				if shape == 0 || d%2 == 0 {
+					v = L(A("a"), v)
+				} else {
+					v = L(A("o"), L(A(hx([]byte("k"))), v))
+				}
+			}
+			if v.head() != "a" {
+				v = L(A("a"), v)
+			}
+			enc := execOp(L(A("jrt"), A("enc"), v))
+			if strings.HasPrefix(enc, "ok x") {
+				r.Do(L(A("jrt"), A("top"), v, A(enc[3:])), true, "jrt.deep")
+				r.Do(L(A("jrt"), A("desc"), v, A(enc[3:])), true, "jrt.deep-desc")
+			}
+		}
+	}
 	// depth far beyond what generated trees reach (the encoding is built by hand: Marshal is quadratic in depth)
 	for _, d := range []int{1, 2, 7, 64, 65, 1000, 20000, 100000} {
 		r.Do(L(A("jdeep"), A(strconv.Itoa(d))), true, "jdeep")
